@@ -723,6 +723,15 @@ func (x *rx) writeSend() {
 		}
 		if ww := x.readAfterReset(bp, read); ww != nil {
 			w = append([]string{"the batch is read after writeSend already replaced it by the fresh slice:"}, ww...)
+		} else {
+			// the holder handed to something that is not followed before the read: where the reset happens relative
+			// to the read is decided on a view in which that call is expanded
+			for _, hp := range g.Points(func(n ast.Node) bool { return x.handsHolder(n, bp) }) {
+				if g.Path(cfgq.Query{From: hp, After: true, Target: func(n ast.Node) bool { return n == read || c07.Within(read, n) }}) != nil {
+					x.c.Undecidedf("R2.forward", "writeSend/every-element", it.stmt.Pos(), "the batch holder is handed to `%s` before the batch is read: whether that resets it is not followed", x.c.Src(hp.Node()))
+					return
+				}
+			}
 		}
 	}
 	x.check("R2.forward", "writeSend/every-element", it.stmt.Pos(), w, "every element of a flushed batch must be forwarded to resultChan exactly once: an element not forwarded is never confirmed, so exec can finish while its RESTORE is still in flight")
